@@ -2,6 +2,7 @@
 """Runs every claimed check against every seeded change in /verif/seeded (apply, check, revert).
 Writes /verif/seeded/RESULTS.json: which checks fired on which change."""
 import json, os, subprocess, sys, glob
+from concurrent.futures import ThreadPoolExecutor
 m = json.load(open('/verif/MANIFEST.json'))
 checks = [c['property_id'] for c in m['checks']]
 only = sys.argv[1:]
@@ -10,6 +11,8 @@ if st:
     print('REPO DIRTY, refusing:', st); sys.exit(2)
 os.makedirs('/tmp/seedrun', exist_ok=True)
 subprocess.run('cp /verif/known_findings.json /tmp/seedrun/', shell=True)
+subprocess.run('cd /verif && ./check C20 quick >/dev/null 2>&1; cp /verif/bin/sheens-verif /tmp/seedrun/sheens-verif', shell=True)
+env = dict(os.environ, VERIF_BIN='/tmp/seedrun/sheens-verif', VERIF_DIR='/tmp/seedrun')
 # baseline must be silent
 res = {}
 resfile = '/verif/seeded/RESULTS.json'
@@ -25,8 +28,9 @@ for d in sorted(glob.glob('/verif/seeded/C*-*')):
         print(name, 'APPLY FAILED'); continue
     fired, detail = [], {}
     try:
-        for c in checks:
-            p = subprocess.run('./check %s quick' % c, shell=True, cwd='/verif', capture_output=True, text=True, env=dict(os.environ, VERIF_DIR='/tmp/seedrun'))
+        with ThreadPoolExecutor(10) as ex:
+            outs = list(ex.map(lambda c: subprocess.run('./check %s quick' % c, shell=True, cwd='/verif', capture_output=True, text=True, env=env), checks))
+        for c, p in zip(checks, outs):
             if p.returncode != 0:
                 fired.append(c)
                 detail[c] = [l.strip()[:300] for l in p.stdout.splitlines() if l.startswith('  VIOLATED') or l.startswith('  UNDECIDED')][:3]
